@@ -10,7 +10,7 @@ REQUIRED_THEOREMS = ['Props.C16.im2col_variants_agree', 'Props.C16.col2im_varian
                      'Props.C16.fold_unfold_coverage']
 RULE = ('large inputs (more than 2^20 column entries, batch 3..11) on the implementation side: the three variants against the window definition (torch unfold) and the adjoint identity; a few geometries with one axis of extent 253..300 (where narrow index types would wrap); geometry grid: N, C in 1..2, H, W in 1..6, kernel 1..3, stride 1..3, dilation 1..2, padding 0..d(k-1)/2+1 per axis independently '
         '(non-square, stride > kernel, windows that do not tile), int and tuple kernel sizes, both layouts (N x CkHkW x L and the 2-D '
-        'column matrix), arbitrary pad values, integer-valued data so equality is exact; every input array is handed over in one of the memory layouts C, Fortran, strided view, negative-stride view, window into a larger buffer; each of the three im2col and three col2im '
+        'column matrix), arbitrary pad values, integer-valued data so equality is exact; four in ten calls are the second call on the same array object after it was overwritten in place (a re-used buffer); every input array is handed over in one of the memory layouts C, Fortran, strided view, negative-stride view, window into a larger buffer; each of the three im2col and three col2im '
         'implementations and extract/place_windows is compared with its own model definition, ~8 % geometries without a window '
         '(must raise). Extra implementation-side checks: the three variants agree bit for bit, <im2col x, y> = <x, col2im y>, '
         'fold(unfold(ones)) = coverage counts. Non-trivial: at least 2 windows and an overlapping or dilated geometry.')
@@ -118,7 +118,8 @@ def cases(rng, tier):
                     'x': [1.0], 'lines': [f"conv im2col spec 1,1,1,1 1,1 1,1 0,0 1,1 {fbits(0.0)} 1 {show_floats([1.0])}"]})
     for c in out:
         c['layout'] = rng.pick(LAYOUTS)
-        c['desc'] = f"layout={c['layout']} " + c['lines'][0][:400]
+        c['reuse'] = rng.chance(.4)
+        c['desc'] = f"layout={c['layout']} reuse={int(c['reuse'])} " + c['lines'][0][:400]
     return out
 
 
@@ -163,18 +164,32 @@ def _run(c):
     shape = (g['N'], g['C'], g['H'], g['W'])
     int_k = (sum(g['k']) + g['H']) % 2 == 0          # exercise the documented int kernel_size
     k, d, s, p = _args(g, int_k)
+    def twice(call, a):
+        """a re-used buffer: the SAME array object first holds other values and goes through the same call, is then overwritten in
+        place with the case's values and goes through the call again; the second answer is the one that counts"""
+        if not c.get('reuse'):
+            return call(a)
+        real = a.copy()
+        a[...] = 2 * real + 1
+        first = call(a)
+        first = None if first is None else np.array(first)      # the first answer, as it was returned
+        a[...] = real
+        second = call(a)
+        if first is not None and not np.array_equal(first, np.array(call(lay(np.ascontiguousarray(2 * real + 1), L)))):
+            raise AssertionError('the answer for the first contents changed')      # cannot happen unless results alias a cache
+        return second
     if c['fn'] == 'im2col':
         x = lay(np.array(c['x']).reshape(shape), L)
         f = {'idx': ct.im2col, 'loop': ct.im2col_v2, 'view': ct.im2col_fast}[c['variant']]
-        return f(x, k, d, s, p, c['pad'], as_unfold=c['unf'])
+        return twice(lambda a: f(a, k, d, s, p, c['pad'], as_unfold=c['unf']), x)
     if c['fn'] == 'col2im':
         y = lay(np.array(c['y']).reshape(c['csh']), L)
         f = {'idx': ct.col2im, 'loop': ct.col2im_v2, 'view': ct.col2im_fast}[c['variant']]
-        return f(y, shape, k, d, s, p)
+        return twice(lambda a: f(a, shape, k, d, s, p), y)
     if c['fn'] == 'extract':
-        return ct.extract_windows(lay(np.array(c['x']).reshape(shape), L), g['k'], g['s'], g['p'], g['d'], c['pad'])
+        return twice(lambda a: ct.extract_windows(a, g['k'], g['s'], g['p'], g['d'], c['pad']), lay(np.array(c['x']).reshape(shape), L))
     if c['fn'] == 'place':
-        return ct.place_windows(lay(np.array(c['w']).reshape(c['wsh']), L), shape, g['k'], g['s'], g['p'], g['d'])
+        return twice(lambda a: ct.place_windows(a, shape, g['k'], g['s'], g['p'], g['d']), lay(np.array(c['w']).reshape(c['wsh']), L))
     # relations: spec line answered by im2col_fast with zero padding; extra checks in compare
     return ct.im2col_fast(lay(np.array(c['x']).reshape(shape), L), g['k'], g['d'], g['s'], g['p'], 0.0, as_unfold=True)
 
@@ -268,7 +283,7 @@ def oracle(c):
         ref = F.unfold(xp, g['k'], g['d'], 0, g['s']).numpy()
         if not c['unf']: ref = ref.transpose(1, 2, 0).reshape(ref.shape[1], -1)
         if r.shape != ref.shape or not np.array_equal(r, ref):
-            return {'key': dict(key, cls='value'), 'case': cc, 'what': f"im2col[{c['variant']}] differs from torch.nn.functional.unfold"}
+            return {'key': dict(key, cls='value'), 'case': cc, 'what': f"im2col[{c['variant']}] differs from torch.nn.functional.unfold" + (' (second call on the same array object after it was overwritten in place)' if c.get('reuse') else '')}
     if c['fn'] == 'col2im':
         y = np.array(c['y']).reshape(c['csh'])
         y3 = y if c['fold'] else y.reshape(y.shape[0], -1, g['N']).transpose(2, 0, 1)
